@@ -447,7 +447,7 @@ func main() {
 			for c := 1; c <= 40; c++ {
 				caps = append(caps, c)
 			}
-			caps = append(caps, mc.Pick(r, []int{63, 64, 65, 66, 67, 100, 127, 128, 129, 130, 200, 255, 256, 257, 300}, []int{63, 64, 65, 66, 67, 100, 127, 128, 129, 130, 200, 255, 256, 257, 300, 511, 512, 513, 1000, 1023, 1024, 1025, 4097})...)
+			caps = append(caps, mc.Pick(r, []int{63, 64, 65, 66, 67, 100, 127, 128, 129, 130, 200, 255, 256, 257, 300, 511, 512, 513, 1023, 1024, 1025}, []int{63, 64, 65, 66, 67, 100, 127, 128, 129, 130, 200, 255, 256, 257, 300, 511, 512, 513, 1000, 1023, 1024, 1025, 2047, 2048, 2049, 4095, 4096, 4097, 16385})...)
 			for _, c := range caps {
 				for h := 0; h < c; h++ {
 					if c > 130 && h > 2 && h < c-2 && h != c/2 && h != c/2-1 && h != c/2+1 && h%32 > 1 && h%32 < 31 {
